@@ -73,12 +73,7 @@ def knownArrayLeaks : List (Backend × String × String) := [
   (.cudd, "BDD._swap", "self.var#0"),
   (.cudd, "BDD._swap", "self.var#1"),
   (.cudd, "BDD._cube_from_bdds", "self.var#0"),
-  (.cudd, "count_nodes", "typetest#1"),
-  (.cuddZdd, "_c_compose", "getitem#0"),
-  (.cuddZdd, "_c_compose", "getitem#1"),
-  (.cuddZdd, "_c_compose", "typetest#1"),
-  (.cuddZdd, "_c_compose", "typetest#2"),
-  (.cuddZdd, "_c_compose", "zdd.var#0")]
+  (.cudd, "count_nodes", "typetest#1")]
 
 /-- what can raise at the site, in the sources as reviewed -/
 inductive LeakReach
@@ -111,11 +106,6 @@ def knownExceptionLeaks : List KnownLeak := [
   ⟨.cuddZdd, "_disjoin", "_find_or_add#0", [("_disjoin", 1), ("_disjoin", 1)], .internal⟩,
   ⟨.cuddZdd, "_conjoin", "_conjoin#1", [("_conjoin", 1)], .internal⟩,
   ⟨.cuddZdd, "_conjoin", "_find_or_add#0", [("_conjoin", 1), ("_conjoin", 1)], .internal⟩,
-  ⟨.cuddZdd, "_c_compose", "getitem#0", [("container array", 0), ("array not freed", 0)], .internal⟩,
-  ⟨.cuddZdd, "_c_compose", "getitem#1", [("container array", 0), ("array not freed", 0)], .internal⟩,
-  ⟨.cuddZdd, "_c_compose", "typetest#1", [("container array", 0), ("array not freed", 0)], .userError⟩,
-  ⟨.cuddZdd, "_c_compose", "typetest#2", [("container array", 0), ("array not freed", 0)], .internal⟩,
-  ⟨.cuddZdd, "_c_compose", "zdd.var#0", [("container array", 0), ("array not freed", 0)], .internal⟩,
   ⟨.cuddZdd, "_compose_root", "_compose#0", [("container pyobj", 0)], .internal⟩,
   ⟨.cuddZdd, "_compose", "_compose#2", [("_compose", 1)], .internal⟩,
   ⟨.cuddZdd, "_compose", "setitem#0", [("cuddZddIte", 2)], .memoryOnly⟩]
